@@ -601,6 +601,32 @@ def shared_nodes(node):
     return False
 
 
+def expand_aliases(node, ancestors, count):
+    """Tree-shaped copy of a composed node graph."""
+    count[0] += 1
+    if count[0] > 200000:
+        raise _Unspec('alias expansion too large for the reference')
+    if isinstance(node, yaml.ScalarNode):
+        return yaml.ScalarNode(node.tag, node.value, node.start_mark,
+                               node.end_mark, style=node.style)
+    if id(node) in ancestors:
+        raise _Fail('self-referential alias')
+    ancestors.add(id(node))
+    try:
+        if isinstance(node, yaml.SequenceNode):
+            return yaml.SequenceNode(
+                node.tag, [expand_aliases(x, ancestors, count)
+                           for x in node.value],
+                node.start_mark, node.end_mark, flow_style=node.flow_style)
+        return yaml.MappingNode(
+            node.tag, [(expand_aliases(k, ancestors, count),
+                        expand_aliases(v, ancestors, count))
+                       for k, v in node.value],
+            node.start_mark, node.end_mark, flow_style=node.flow_style)
+    finally:
+        ancestors.discard(id(node))
+
+
 def compose(text):
     ldr = RefLoader(text)
     try:
@@ -628,7 +654,14 @@ def ref_load(model, text, doc_type=None, rules=None):
         node = yaml.ScalarNode(S.TAG_NULL, '', mark, mark)
         ref.rule('empty-document')
     if shared_nodes(node):
-        return Unspecified('aliases')
+        # an alias stands for a copy of the anchored node
+        try:
+            node = expand_aliases(node, set(), [0])
+        except _Fail as e:
+            return Reject(e.reason)
+        except _Unspec as e:
+            return Unspecified(str(e))
+        ref.rule('aliases-expanded')
     try:
         ref.check_model()
         v = ref.process(node, t)
